@@ -21,7 +21,8 @@ THEOREMS = ['C09_analyze_exact', 'C09_analyze_no_panic', 'C09_analyze_error_kind
             'C09_field_name_sees_outer_scope', 'C09_comp_vars_left_to_right',
             'C09_object_locals_mutual', 'C09_analyze_closed', 'C09_walk_no_unbound',
             'C09_analyze_walk_no_unbound', 'C09_nonvacuous_ok', 'C09_nonvacuous_err',
-            'C09_nonvacuous_walk']
+            'C09_nonvacuous_walk',
+            'C09_refeval_no_static_error']
 ALLOWED_AXIOMS = set()
 TRANSLATORS = []
 
